@@ -718,7 +718,7 @@ class Translator:
                 x = float(m.group(1))
                 if x == 0.0: return ("(@zero A)", "elem")
                 if x == 1.0: return ("(@one A)", "elem")
-                if "float_lit" in self.tb.__dict__ and self.spec.get("sarith"): return self.tb.float_lit(m.group(1)), "elem"
+                if self.spec.get("sarith") and x == 2.0: return ("(add (@one A) (@one A))", "elem")
                 self.bad("floating-point literal %s (only 0.0 / 1.0 have a meaning over an arbitrary Arith)" % txt)
             self.bad("numeric literal %r" % txt)
         if k == "var":
@@ -944,7 +944,7 @@ class Translator:
         if isinstance(tr, tuple) and tr[0] == "opt" and name == "unwrap" and not args:
             v = self.fresh("u"); B.append(("bind", ("v", v), ("app", "unwrap_opt", [g_raw(r)]))); return (v, tr[1])
         key = (tr if not isinstance(tr, tuple) else tr[0], name, len(args))
-        ent = self.tb.METHODS.get(key)
+        ent = self.spec.get("methods", {}).get(key) or self.tb.METHODS.get(key)
         if ent is None: self.bad("method `.%s/%d` on a receiver of type %s is not in the call table" % (name, len(args), tr))
         avals = []
         ptys = ent.get("args", [None] * len(args))
@@ -1002,7 +1002,7 @@ class Translator:
         if path == "Some" and len(args) == 1:
             t, ty = self.ex(args[0], env, B)
             return ("(Some %s)" % self.lit(t, ty, "usize"), ("opt", "usize" if ty == "lit" else ty))
-        ent = self.tb.PATHS.get((path, len(args)))
+        ent = self.spec.get("paths", {}).get((path, len(args))) or self.tb.PATHS.get((path, len(args)))
         if ent is None: self.bad("function `%s/%d` is not in the call table" % (path, len(args)))
         if isinstance(ent, dict) and ent.get("special") == "swap":
             return self.mem_swap(args, env, B)
